@@ -37,6 +37,9 @@ def searchLoop (s : Store) (v : View) (mode : SlMode) (volNode : Ino) :
     match it1.part with
     | none => ⟨parent, none, saved.getD it1, .panic⟩
     | some name =>
+      -- a lookup in the root directory (of the view / volume) needs its search permission
+      if parent == volNode && !(match s.get parent with | some (.dir m _) => checkPerm m omLookup v | _ => true) then
+        ⟨parent, none, saved.getD it1, .acces⟩ else
       match s.child parent name with
       | none => ⟨parent, none, saved.getD it1, .noent⟩
       | some c =>
